@@ -7,6 +7,7 @@ import PoaVerif.Facts
 import PoaVerif.Lemmas.RunTotal
 import PoaVerif.Lemmas.Quiet
 import PoaVerif.Lemmas.Quiet2.Run
+import PoaVerif.Lemmas.Quiet2.Gov
 /-
   C04 — no transaction sequence halts the chain; updates are always valid for CometBFT.
   FALSE of the code as stated (defect classes D2–D7); machine-checked witnesses below, plus what is proved.
@@ -154,5 +155,18 @@ theorem c04_removals (g : Genesis) (hw : g.wf = true) (bs : List Block) (hq : Qu
 /-- non-vacuity: blocks of the D3 witness history before the double SetPower lie inside `Pre` with successful
     BeginBlockers -/
 example : preAll genEnv Witness.D3.s0 Witness.D3.c0 [Witness.D3.b1] = true ∧ beginOk genEnv Witness.D3.s0 Witness.D3.c0 [Witness.D3.b1] = true := by decide
+
+/-- **C04 when the admin's operations arrive through governance** (see `Props.C02.c02_governance` for the class): no
+    executed proposal — whatever list of admin messages it carries within the class, and whether it goes through or
+    fails — halts the chain or makes CometBFT refuse an update list, and some live validator remains after every block -/
+theorem c04_governance (g : Genesis) (hw : g.wf = true) (bs : List Block) (hq : QuietHistory3 g bs) :
+    ∃ first steps, run genEnv g bs = some (first, steps, RunEnd.done) ∧ steps.length = bs.length ∧
+      ∀ st ∈ first :: steps, ∃ v ∈ st.app.vals, Active v := by
+  obtain ⟨first, steps, h1, h2, _, hg, h5⟩ := quiet_history3 g hw bs hq
+  refine ⟨first, steps, h1, h2, ?_⟩
+  intro st hst
+  rcases List.mem_cons.mp hst with e | e
+  · rw [e]; exact hg.st.hasActive
+  · exact (h5 st e).2.st.hasActive
 
 end PoaVerif.Props.C04
